@@ -1025,12 +1025,15 @@ class ChannelFactory:
             # state transition to "closed" state
             if remoteerror:
                 channel._remoteerrors.append(remoteerror)
+            # mark the channel closed before a receiver can see the end
+            # marker, so that whoever observed the close also sees
+            # isclosed() and a refused send()
+            if not sendonly:  # otherwise #--> "sendonly"
+                channel._closed = True  # --> "closed"
             queue = channel._items
             if queue is not None:
                 queue.put(ENDMARKER)
             self._no_longer_opened(id)
-            if not sendonly:  # otherwise #--> "sendonly"
-                channel._closed = True  # --> "closed"
             channel._receiveclosed.set()
 
     def _local_receive(self, id: int, data) -> None:
